@@ -11,8 +11,11 @@ Mirrors, for the subset "object-like macros, `#define/#undef/#ifdef/#ifndef/#if/
   (`apply_single_macro` / `macro_disabled`);
 * `#if/#elif` conditions are expanded with `defined X` / `defined(X)` replaced by `1`/`0` at the top level
   of the scan only, then handed to the condition evaluator (a parameter here: the theorems hold for any);
-* the three-state `ConditionChain` (`switch`, `pop`, `is_active`) is copied literally; `#elif` evaluates
-  its condition even where it cannot matter (as the code does), `#if` inside an inactive region does not.
+* the `ConditionChain` (`push`, `switch`, `pop`, `is_active`) is copied literally: every open block carries its
+  three-state gate and whether its `#else` branch has started (fix 03ca601: a further `#else` / `#elif` of that
+  block is the error `ElseAfterElse` / `ElifAfterElse`); `#elif` evaluates its condition even where it cannot
+  matter, and before the chain is consulted (as the code does), `#if` inside an inactive region does not.
+  A single file is modelled, so the chain's "blocks open when the current file started" count is 0.
 
 Outside the model (the full macro model belongs to C12): function-like macros, `##`, `#include`,
 `#pragma`, lexing.  The driver answers `unsupported` for tables with duplicate names (reachable only through
@@ -95,27 +98,42 @@ inductive PErr where
   | endifNotMatched
   | notFinished
   | badCondition
+  | elseAfterElse
+  | elifAfterElse
+  deriving DecidableEq, Repr
+
+/-- `ConditionBlock`: an `#if` block that has not reached its `#endif` -/
+structure Block where
+  state : Gate
+  /-- the `#else` branch has started - which has to be the last branch -/
+  seenElse : Bool
   deriving DecidableEq, Repr
 
 structure St where
   macros : Table
-  /-- innermost gate first -/
-  chain : List Gate
+  /-- innermost block first -/
+  chain : List Block
   out : List Tok
   deriving DecidableEq, Repr
 
-def active (chain : List Gate) : Bool := chain.all (· == .enabled)
+def active (chain : List Block) : Bool := chain.all (·.state == .enabled)
 
-/-- `ConditionChain::switch` -/
-def switch (a : Bool) : List Gate → Except PErr (List Gate)
+/-- `ConditionChain::switch(active, is_else, _)` -/
+def switch (a isElse : Bool) : List Block → Except PErr (List Block)
   | [] => .error .elseNotMatched
-  | g :: r =>
-    .ok ((match g with
-      | .enabled => .disabledOuter
-      | .disabledInner => if a then .enabled else .disabledInner
-      | .disabledOuter => .disabledOuter) :: r)
+  | b :: r =>
+    if b.seenElse then .error (if isElse then .elseAfterElse else .elifAfterElse)
+    else
+      .ok (⟨match b.state with
+        | .enabled => .disabledOuter
+        | .disabledInner => if a then .enabled else .disabledInner
+        | .disabledOuter => .disabledOuter, isElse⟩ :: r)
 
-def gateOf (a : Bool) : Gate := if a then .enabled else .disabledInner
+/-- `ConditionChain::push` of the gate an `#if` / `#ifdef` opens with -/
+def gateOf (a : Bool) : Block := ⟨if a then .enabled else .disabledInner, false⟩
+
+/-- the block pushed for an `#if` / `#ifdef` / `#ifndef` inside a skipped region -/
+def skippedBlock : Block := ⟨.disabledInner, false⟩
 
 /-- evaluate a condition: expand, then the condition evaluator `ev` (`none` = parse failure) -/
 def condValue (ev : List Tok → Option Bool) (ms : Table) (c : List Tok) : Option Bool :=
@@ -136,22 +154,22 @@ def step (ev : List Tok → Option Bool) (st : St) : Line → Except PErr St
   | .ifdef neg n =>
     if active st.chain then
       .ok { st with chain := gateOf (neg != isDefined st.macros n) :: st.chain }
-    else .ok { st with chain := .disabledInner :: st.chain }
+    else .ok { st with chain := skippedBlock :: st.chain }
   | .if_ c =>
     if active st.chain then
       match condValue ev st.macros c with
       | none => .error .badCondition
       | some a => .ok { st with chain := gateOf a :: st.chain }
-    else .ok { st with chain := .disabledInner :: st.chain }
+    else .ok { st with chain := skippedBlock :: st.chain }
   | .elif c =>
     match condValue ev st.macros c with
     | none => .error .badCondition
     | some a =>
-      match switch a st.chain with
+      match switch a false st.chain with
       | .error e => .error e
       | .ok ch => .ok { st with chain := ch }
   | .else_ =>
-    match switch true st.chain with
+    match switch true true st.chain with
     | .error e => .error e
     | .ok ch => .ok { st with chain := ch }
   | .endif =>
